@@ -352,10 +352,21 @@ def runLine (ws : List String) : String :=
     | _, _ => "bad-op"
   | ws => runWords ws
 
+/-- `kmc <r> <rep> <fields of a ks match case, self = 0>`: obikmermatch under concurrent use (harness/c19_match.go).
+The answer is the answer of the `ks match` case on the distinct reads run ALONE (the sequential model of the command,
+`KmerSim.cliAlignCandidates`); the harness demands the same records from `rep` copies of every read handled by the
+worker goroutines of the command at the same time, `r` rounds, and the shared references unchanged. -/
+def runKmc (r rep : String) (rest : List String) : String :=
+  match optNat r 1 50, optNat rep 1 64, rest with
+  | some _, some _, form :: k :: sp :: mn :: mo :: self :: ncpu :: batch :: obs :: nref :: seqs =>
+    if self ≠ "0" then "bad-op" else runKs "match" form k sp mn mo self ncpu batch obs nref seqs
+  | _, _, _ => "bad-op"
+
 /-- `race conc …`: the same case replayed by the harness through a `go build -race` build; same answer -/
 def run (line : String) : String :=
   match words line with
   | "race" :: "conc" :: rest => runLine ("conc" :: rest)
+  | "kmc" :: r :: rep :: rest => runKmc r rep rest
   | ws => runLine ws
 
 end ObiVerif.Driver.C19
